@@ -74,6 +74,31 @@ func (vc *FuncVC) call(b *ssa.BasicBlock, idx int, ins ssa.Instruction, c *ssa.C
 			vc.note("regex not translated: " + err.Error())
 		}
 	}
+	if vc.con != nil && vc.con.HasOSCalls && (strings.HasPrefix(key, "os.") || strings.HasPrefix(key, "syscall.") || strings.HasPrefix(key, "io/ioutil.")) {
+		allowed := false
+		for _, a := range vc.con.OSCalls {
+			if a == key {
+				allowed = true
+			}
+		}
+		if !allowed {
+			vc.oblige("assert:"+vc.con.OSCallsLabel+"@os-calls-only", vc.con.OSCallsLabel, "the function calls only the whitelisted operating-system functions; found "+key, pos, reach, False)
+		}
+	}
+	// type-specialised contracts: key<dynamic type of an interface argument>, e.g. json.Unmarshal<*T>; the
+	// argument is then bound to the value inside the interface
+	unboxed := map[int]ssa.Value{}
+	for i, a := range c.Args {
+		if mi, ok := a.(*ssa.MakeInterface); ok {
+			tkey := key + "<" + types.TypeString(mi.X.Type(), func(p *types.Package) string { return shortPkg(p.Path()) }) + ">"
+			if sc := vc.S.Contracts[tkey]; sc != nil {
+				con = sc
+				key = tkey
+				unboxed[i] = mi.X
+				break
+			}
+		}
+	}
 	// actual arguments: receiver first
 	var args []Term
 	var argTypes []types.Type
@@ -88,7 +113,10 @@ func (vc *FuncVC) call(b *ssa.BasicBlock, idx int, ins ssa.Instruction, c *ssa.C
 		fv := vc.val(c.Value)
 		vc.safetyOb("nil", "call of nil function value "+c.Value.Name(), pos, reach, Not(Eq(App(SInt, "fn_id", fv), IntLit(0))))
 	}
-	for _, a := range c.Args {
+	for i, a := range c.Args {
+		if u, ok := unboxed[i]; ok {
+			a = u
+		}
 		args = append(args, vc.val(a))
 		argTypes = append(argTypes, a.Type())
 	}
@@ -219,6 +247,14 @@ func (vc *FuncVC) call(b *ssa.BasicBlock, idx int, ins ssa.Instruction, c *ssa.C
 				mods = append(mods, modLoc{kind: "obj", t: cell})
 			}
 		}
+		if mc, ok := c.Value.(*ssa.MakeClosure); ok {
+			// a closure without a contract may write every variable it captured by reference
+			for _, bnd := range mc.Bindings {
+				if _, ok := under(bnd.Type()).(*types.Pointer); ok {
+					mods = append(mods, modLoc{kind: "obj", t: vc.val(bnd)})
+				}
+			}
+		}
 		vc.frameCheckMods(b, pos, mods, dk+" (default contract)")
 		vc.havoc(st, mods, true)
 		setResults(mkResults(st))
@@ -305,6 +341,31 @@ func (vc *FuncVC) havoc(st *State, mods []modLoc, allocGrows bool) {
 	anyMod, objMod := false, false
 	addrSorts := map[Sort]bool{}
 	var mapMods []modLoc
+	// ghost state of the environment
+	gmods := map[string][]Term{}
+	for _, m := range mods {
+		if m.kind == "gstate" {
+			gmods[m.gkey] = append(gmods[m.gkey], m.t)
+		}
+	}
+	for _, m := range mods {
+		if m.kind == "gstate-all" {
+			vc.newVersion(st, m.gkey)
+			delete(gmods, m.gkey)
+		}
+	}
+	for gkey, idxs := range gmods {
+		c := vc.comps[gkey]
+		ks, vs := splitArraySort(c.sort)
+		old := vc.cur(st, gkey)
+		nv := vc.newVersion(st, gkey)
+		k := vc.boundVar("k", ks)
+		var ne []Term
+		for _, ix := range idxs {
+			ne = append(ne, Not(Eq(k, ix)))
+		}
+		vc.emit("(assert %s)", Forall([]Term{k}, Implies(And(ne...), Eq(Select(nv, k, vs), Select(old, k, vs))), Select(nv, k, vs)).S)
+	}
 	for _, m := range mods {
 		switch m.kind {
 		case "any":
